@@ -3,6 +3,7 @@
 package verifkit
 
 import (
+	"log/slog"
 	"crypto/sha256"
 	"encoding/binary"
 	"encoding/json"
@@ -102,6 +103,9 @@ func envInt(name string, def int64) int64 {
 // Open creates the session for property prop from the VERIF_* environment.
 func Open(t *testing.T, prop string) *Session {
 	t.Helper()
+	if os.Getenv("VERIF_DEBUG") != "" {
+		slog.SetLogLoggerLevel(slog.LevelDebug) // gittuf narrates its decisions at debug level
+	}
 	s := &Session{
 		Prop:        prop,
 		Tier:        os.Getenv("VERIF_TIER"),
